@@ -49,6 +49,8 @@ def max_worlds(tier):
 
 def gen_case(rng, i, tier):
     p = G.gen(rng, stratified=True)
+    if i % 8 == 3:
+        p = G.add_tautologies(rng, p)
     mode = ["api_default", "api_ddnnf", "api_default", "api_ddnnf", "api_default", "cli"][i % 6]
     return dict(prog=p, mode=mode, tier=tier)
 
